@@ -196,8 +196,11 @@ Definition p_control (ot : optype) : prog :=
     | Some ev =>
       Do (ATry ev) (fun e1 =>
         if negb (res_b e1) then reply 0 else
+        (* the error of the requested transition is what the caller gets (Aborted), whether the
+           GO_ERROR fallback then succeeds or the state has to be forced: the result of the
+           fallback is kept in a separate variable (errGoError) since the C02-d repair *)
         Do (ATry eGO_ERROR) (fun e2 =>
-          if negb (res_b e2) then reply 0 else
+          if negb (res_b e2) then reply 3 else
           Do (AForce sERROR) (fun _ => reply 3)))
     end).
 
@@ -697,6 +700,49 @@ Fixpoint guided (hint : list nat) (k : nat) (c : cstate) (acc : cstate -> bool) 
     if existsb (next_invisible c) (all_threads c) then go (drain_invisible c) || go c else go c
   end.
 
+(* The same guided search with long postponements: a goroutine that is about to run an unlocked
+   action (typically the forced Sm.SetState after a cancelled GO_ERROR fallback) may not be
+   scheduled again before several other callers have had the transition mutex.  Freezing a thread
+   costs one unit of [k]; a frozen thread is skipped at no cost and may be released at any later
+   point (it is released anyway when it is its turn to take the mutex, and at the end). *)
+Definition memnat (t : nat) (l : list nat) : bool := existsb (Nat.eqb t) l.
+Definition delnat (t : nat) (l : list nat) : list nat := filter (fun x => negb (Nat.eqb t x)) l.
+
+Fixpoint settleF (fuel : nat) (ts : list nat) (k : nat) (fr : list nat) (c : cstate)
+         (cont : nat -> list nat -> cstate -> bool) {struct fuel} : bool :=
+  match fuel with
+  | O => false
+  | S f =>
+    match ts with
+    | [] => cont k fr c
+    | t :: r =>
+      if next_silent c t then
+        if memnat t fr then
+          settleF f r k fr c cont || settleF f ts k (delnat t fr) c cont
+        else
+          settleF f ts k fr (cstep env_events api_bodyful c t) cont ||
+          match k with S k' => settleF f r k' (t :: fr) c cont | O => false end
+      else settleF f r k fr c cont
+    end
+  end.
+
+Fixpoint guidedF (hint : list nat) (k : nat) (fr : list nat) (c : cstate) (acc : cstate -> bool)
+         {struct hint} : bool :=
+  match hint with
+  | [] => settleF 200 (all_threads c) k fr c (fun _ _ c1 => acc (finish_all c1))
+  | i :: r =>
+    let go c0 :=
+      settleF 200 (all_threads c0) k fr c0 (fun k1 fr1 c1 =>
+        let c1 := run_silent 16 c1 i in
+        let fr1 := delnat i fr1 in
+        if enabled c1 i && negb (next_silent c1 i) then
+          settleF 200 (all_threads c1) k1 fr1 (cstep env_events api_bodyful c1 i) (fun k2 fr2 c2 =>
+            settleF 200 (all_threads c2) k2 fr2 (cstep env_events api_bodyful c2 i) (fun k3 fr3 c3 =>
+              guidedF r k3 fr3 (cstep env_events api_bodyful c3 i) acc))
+        else false) in
+    if existsb (next_invisible c) (all_threads c) then go (drain_invisible c) || go c else go c
+  end.
+
 Definition corr_conc st0 o ths (macro micro : list N) (log : list litem) final listed : bool :=
   let items := visible (log_items log) in
   let sampled := log_states log in
@@ -707,7 +753,8 @@ Definition corr_conc st0 o ths (macro micro : list N) (log : list litem) final l
    | [] => acc (run_macro (map N.to_nat macro) c0) || acc (run_macro_early (map N.to_nat macro) c0) ||
            acc (run_macro_late (map N.to_nat macro) c0) ||
            guided (map N.to_nat macro) 1 c0 acc || guided (map N.to_nat macro) 2 c0 acc ||
-           guided (map N.to_nat macro) 3 c0 acc
+           guided (map N.to_nat macro) 3 c0 acc ||
+           guidedF (map N.to_nat macro) 1 [] c0 acc || guidedF (map N.to_nat macro) 2 [] c0 acc
    end) ||
   fst (search 120 items acc c0 30000).
 
@@ -734,8 +781,9 @@ Definition corr01 (c : c01_case) : bool :=
       any transition
    7  the states reported in the event stream do not follow the documented graph
    8  the reply reports a state different from the state the environment is in
-   9  concurrent callers, one ControlEnvironment answered "Aborted" (it forced ERROR without the
-      transition mutex): the environment left ERROR other than by teardown, or ended live  [C01-b]
+   9  concurrent callers, one ControlEnvironment answered "Aborted" in an episode with a failing hook
+      on the GO_ERROR fallback path (ERROR forced without the transition mutex): the environment
+      left ERROR other than by teardown, or ended live                                    [C01-b]
    10 concurrent requests never returned (deadlock) in an episode with a ControlEnvironment
       transition request and a failing hook on the GO_ERROR fallback path                [C01-c]
    11 concurrent requests never returned, any other episode *)
@@ -822,22 +870,6 @@ Fixpoint brackets_ok (depth : N) (l : list litem) : bool :=
   | LI _ :: r => (depth =? 1) && brackets_ok depth r
   end.
 
-(* some ControlEnvironment of the episode was answered Aborted: it has forced ERROR (server.go) *)
-Definition aborted (ths : list (req * N * option estate)) : bool :=
-  existsb (fun t => match fst (fst t) with QControl _ => snd (fst t) =? 3 | _ => false end) ths.
-
-Definition mon_conc (st0 : estate) (ths : list (req * N * option estate)) (log : list litem)
-           (final : estate) (listed : bool) : N :=
-  if negb (brackets_ok 0 log) then 6 else
-  (* leaving ERROR is class 9 only when a forced ERROR was involved, class 1 otherwise *)
-  let ab := aborted ths in
-  let g := edges_code ab listed (pairs_from st0 (log_states log ++ [final])) in
-  if negb (g =? 0) then g else
-  let g2 := reported_code (edges_code ab listed (pairs_from st0 (log_reported log))) in
-  if negb (g2 =? 0) then g2 else
-  (* a control request answered Aborted has forced ERROR: afterwards only a teardown may move *)
-  if ab && live final then 9 else 0.
-
 (* a hook fault on the path of the GO_ERROR fallback: the only way a ControlEnvironment reaches its
    unlocked Sm.SetState("ERROR") while somebody else's event can still be running callbacks *)
 Definition goerror_path_fault (o : oracle) : bool :=
@@ -846,6 +878,28 @@ Definition goerror_path_fault (o : oracle) : bool :=
                     | MLeave s => live s
                     | _ => false
                     end) (o_hooks o).
+
+(* some ControlEnvironment of the episode was answered Aborted: its transition failed and the
+   environment was put in ERROR, by the GO_ERROR fallback or by the unlocked forced state *)
+Definition aborted (ths : list (req * N * option estate)) : bool :=
+  existsb (fun t => match fst (fst t) with QControl _ => snd (fst t) =? 3 | _ => false end) ths.
+
+Definition mon_conc (st0 : estate) (o : oracle) (ths : list (req * N * option estate)) (log : list litem)
+           (final : estate) (listed : bool) : N :=
+  if negb (brackets_ok 0 log) then 6 else
+  (* a control request answered Aborted has put the environment in ERROR: afterwards only a
+     teardown may move it (class 5 when no unlocked forced state can be involved) *)
+  if aborted ths && live final && negb (goerror_path_fault o) then 5 else
+  (* leaving ERROR is class 9 only when an unlocked forced ERROR can be involved (a failed request
+     whose GO_ERROR fallback has a failing hook on its path), class 1 otherwise *)
+  let ab := aborted ths && goerror_path_fault o in
+  let g := edges_code ab listed (pairs_from st0 (log_states log ++ [final])) in
+  if negb (g =? 0) then g else
+  let g2 := reported_code (edges_code ab listed (pairs_from st0 (log_reported log))) in
+  if negb (g2 =? 0) then g2 else
+  (* a control request answered Aborted has forced ERROR: afterwards only a teardown may move *)
+  if ab && live final then 9 else 0.
+
 Definition is_transition_request (q : req) : bool :=
   match q with
   | QControl ot => match doc_op_event ot with Some _ => true | None => false end
@@ -863,7 +917,7 @@ Definition mon01 (c : c01_case) : N :=
     | [(a, b)] => if estate_eqb final b then 0 else 5
     | _ => 5
     end
-  | CConc st0 o ths macro micro log final listed => mon_conc st0 ths log final listed
+  | CConc st0 o ths macro micro log final listed => mon_conc st0 o ths log final listed
   | CHung o reqs => if existsb is_transition_request reqs && goerror_path_fault o then 10 else 11
   end.
 
